@@ -233,4 +233,7 @@ def translated : List String := ["GetInputPrice(inputAmt,inputReserve,outputRese
 /-- every rejecting guard of the translated functions, in source order -/
 def guards : List String := ["calcExactIn: lptDenom, err := k.GetLptDenomFromDenoms(ctx, exactSoldCoin.Denom, boughtTokenDenom); err != nil", "calcExactIn: reservePool, err := k.GetPoolBalances(ctx, reservePoolAddress); err != nil", "calcExactIn: !inputReserve.IsPositive()", "calcExactIn: !outputReserve.IsPositive()", "calcExactOut: lptDenom, err := k.GetLptDenomFromDenoms(ctx, exactBoughtCoin.Denom, soldTokenDenom); err != nil", "calcExactOut: reservePool, err := k.GetPoolBalances(ctx, poolAddr); err != nil", "calcExactOut: !inputReserve.IsPositive()", "calcExactOut: !outputReserve.IsPositive()", "calcExactOut: exactBoughtCoin.Amount.GTE(outputReserve)", "TradeExactIn: boughtTokenAmt, err := k.calculateWithExactInput(ctx, input.Coin, output.Coin.Denom); err != nil", "TradeExactIn: boughtTokenAmt.LT(output.Coin.Amount)", "TradeExactIn: inputAddress, err := sdk.AccAddressFromBech32(input.Address); err != nil", "TradeExactIn: outputAddress, err := sdk.AccAddressFromBech32(output.Address); err != nil", "TradeExactIn: err := k.swapCoins(ctx, inputAddress, outputAddress, input.Coin, boughtToken); err != nil", "TradeExactOut: soldTokenAmt, err := k.calculateWithExactOutput(ctx, output.Coin, input.Coin.Denom); err != nil", "TradeExactOut: soldTokenAmt.GT(input.Coin.Amount)", "TradeExactOut: inputAddress, err := sdk.AccAddressFromBech32(input.Address); err != nil", "TradeExactOut: outputAddress, err := sdk.AccAddressFromBech32(output.Address); err != nil", "TradeExactOut: err := k.swapCoins(ctx, inputAddress, outputAddress, soldToken, output.Coin); err != nil", "DoubleExactIn: standardAmount, err := k.calculateWithExactInput(ctx, input.Coin, standardDenom); err != nil", "DoubleExactIn: inputAddress, err := sdk.AccAddressFromBech32(input.Address); err != nil", "DoubleExactIn: outputAddress, err := sdk.AccAddressFromBech32(output.Address); err != nil", "DoubleExactIn: err := k.swapCoins(ctx, inputAddress, inputAddress, input.Coin, standardCoin); err != nil", "DoubleExactIn: boughtAmt, err := k.calculateWithExactInput(ctx, standardCoin, output.Coin.Denom); err != nil", "DoubleExactIn: boughtAmt.LT(output.Coin.Amount)", "DoubleExactIn: err := k.swapCoins(ctx, inputAddress, outputAddress, standardCoin, boughtToken); err != nil", "DoubleExactOut: soldStandardAmount, err := k.calculateWithExactOutput(ctx, output.Coin, standardDenom); err != nil", "DoubleExactOut: soldTokenAmt, err := k.calculateWithExactOutput(ctx, soldStandardCoin, input.Coin.Denom); err != nil", "DoubleExactOut: soldTokenAmt.GT(input.Coin.Amount)", "DoubleExactOut: inputAddress, err := sdk.AccAddressFromBech32(input.Address); err != nil", "DoubleExactOut: outputAddress, err := sdk.AccAddressFromBech32(output.Address); err != nil", "DoubleExactOut: err := k.swapCoins(ctx, inputAddress, inputAddress, soldTokenCoin, soldStandardCoin); err != nil", "DoubleExactOut: err := k.swapCoins(ctx, inputAddress, outputAddress, soldStandardCoin, output.Coin); err != nil", "AddLiquidity: standardDenom == msg.MaxToken.Denom", "AddLiquidity: sender, err := sdk.AccAddressFromBech32(msg.Sender); err != nil", "AddLiquidity: err := k.DeductPoolCreationFee(ctx, sender); err != nil", "AddLiquidity: mintLiquidityAmt.LT(msg.MinLiquidity)", "AddLiquidity: balances, err := k.GetPoolBalances(ctx, pool.EscrowAddress); err != nil", "AddLiquidity: mintLiquidityAmt.LT(msg.MinLiquidity)", "AddLiquidity: standardReserveAmt.IsZero() || tokenReserveAmt.IsZero() || liquidity.IsZero()", "AddLiquidity: mintLiquidityAmt.LT(msg.MinLiquidity)", "AddLiquidity: depositAmt.GT(msg.MaxToken.Amount)", "RemoveLiquidity: sender, err := sdk.AccAddressFromBech32(msg.Sender); err != nil", "RemoveLiquidity: !exists", "RemoveLiquidity: balances, err := k.GetPoolBalances(ctx, pool.EscrowAddress); err != nil", "RemoveLiquidity: standardReserveAmt.LT(msg.MinStandardAmt)", "RemoveLiquidity: tokenReserveAmt.LT(msg.MinToken)", "RemoveLiquidity: liquidityReserve.LT(msg.WithdrawLiquidity.Amount)", "RemoveLiquidity: irisWithdrawCoin.Amount.LT(msg.MinStandardAmt)", "RemoveLiquidity: tokenWithdrawCoin.Amount.LT(msg.MinToken)", "RemoveLiquidity: poolAddr, err := sdk.AccAddressFromBech32(pool.EscrowAddress); err != nil", "AddUnilateral: sender, err := sdk.AccAddressFromBech32(msg.Sender); err != nil", "AddUnilateral: !exist", "AddUnilateral: poolAddr, err := sdk.AccAddressFromBech32(pool.EscrowAddress); err != nil", "AddUnilateral: balances, err := k.GetPoolBalances(ctx, pool.EscrowAddress); err != nil", "AddUnilateral: msg.ExactToken.Denom != msg.CounterpartyDenom && msg.ExactToken.Denom != k.GetStandardDenom(ctx)", "AddUnilateral: balances == nil || balances.IsZero()", "AddUnilateral: mintLptAmt.LT(msg.MinLiquidity)", "RemoveUnilateral: sender, err := sdk.AccAddressFromBech32(msg.Sender); err != nil", "RemoveUnilateral: !exist", "RemoveUnilateral: poolAddr, err := sdk.AccAddressFromBech32(pool.EscrowAddress); err != nil", "RemoveUnilateral: balances, err := k.GetPoolBalances(ctx, pool.EscrowAddress); err != nil", "RemoveUnilateral: msg.MinToken.Denom != msg.CounterpartyDenom && msg.MinToken.Denom != k.GetStandardDenom(ctx)", "RemoveUnilateral: lptBalanceAmt.LT(msg.ExactLiquidity)", "RemoveUnilateral: lptBalanceAmt.Equal(msg.ExactLiquidity)", "RemoveUnilateral: targetBalanceAmt.LT(msg.MinToken.Amount)", "RemoveUnilateral: targetTokenAmtAfterFee.LT(msg.MinToken.Amount)", "Keeper.Swap: err != nil", "Keeper.swapCoins: lptDenom, err := k.GetLptDenomFromDenoms(ctx, coinSold.Denom, coinBought.Denom); err != nil", "Keeper.swapCoins: err := k.bk.SendCoins(ctx, sender, poolAddr, sdk.NewCoins(coinSold)); err != nil", "Keeper.ValidatePool: err := types.ValidateLptDenom(lptDenom); err != nil", "Keeper.ValidatePool: !has", "Keeper.ValidatePool: _, err := k.GetPoolBalances(ctx, pool.EscrowAddress); err != nil", "msgServer.AddLiquidity: ctx.BlockHeader().Time.After(time.Unix(msg.Deadline, 0))", "msgServer.AddLiquidity: mintToken, err := m.k.AddLiquidity(ctx, msg); err != nil", "msgServer.AddUnilateralLiquidity: ctx.BlockHeader().Time.After(time.Unix(msg.Deadline, 0))", "msgServer.AddUnilateralLiquidity: mintToken, err := m.k.AddUnilateralLiquidity(ctx, msg); err != nil", "msgServer.RemoveLiquidity: ctx.BlockHeader().Time.After(time.Unix(msg.Deadline, 0))", "msgServer.RemoveLiquidity: withdrawCoins, err := m.k.RemoveLiquidity(ctx, msg); err != nil", "msgServer.RemoveUnilateralLiquidity: ctx.BlockHeader().Time.After(time.Unix(msg.Deadline, 0))", "msgServer.RemoveUnilateralLiquidity: withdrawCoins, err := m.k.RemoveUnilateralLiquidity(ctx, msg); err != nil", "msgServer.SwapCoin: ctx.BlockHeader().Time.After(time.Unix(msg.Deadline, 0))", "msgServer.SwapCoin: m.k.blockedAddrs[msg.Output.Address]", "msgServer.SwapCoin: err := m.k.Swap(ctx, msg); err != nil"]
 
+/-- every statement of the translated functions executed for its effect, with its nesting depth, in source order -/
+def effects : List String := ["AddUnilateral: d0 squareBigInt.Sqrt(square.BigInt())", "Keeper.CreatePool: d0 k.setSequence(ctx, sequence+1)", "Keeper.CreatePool: d0 k.setPool(ctx, pool)"]
+
 end Irismod.Gen.PureCoinswap
